@@ -30,7 +30,8 @@ PACK = ["U.gf.pack", "U.gf.unpack", "L.pack.inv1", "L.pack.inv2"]
 DEC = ["U.api.decode", "U.api.decode_explicit"]
 PHR = ["U.lang.phrase_decode", "U.lang.phrase_decode_explicit"]
 CMPU = ["U.cmp.str", "U.cmp.prefix", "U.cmp.str_noaccent", "U.cmp.prefix_noaccent"]
-CMPB = ["B.cmp.str", "B.cmp.prefix", "B.cmp.str_noaccent", "B.cmp.prefix_noaccent"]
+CMPB = ["B.cmp.str", "B.cmp.prefix", "B.cmp.str_noaccent", "B.cmp.prefix_noaccent",
+        "B.cmp.str.big", "B.cmp.prefix.big", "B.cmp.str_noaccent.big", "B.cmp.prefix_noaccent.big"]
 FT = ["U.ft.make", "U.ft.get", "U.ft.isenc", "U.ft.supported", "U.ft.enable"]
 API_D = ["U.api.create", "U.api.free", "U.api.keygen", "U.api.store", "U.api.load", "U.api.get_birthday", "U.api.get_feature", "U.api.is_encrypted"]
 
@@ -61,7 +62,7 @@ P("C03", level="proof", design_ref="7/C03", units=["U.gf.pack", "U.gf.encode", "
        "to be a function of (seed, coin, language) only and to change nothing; per-language separator/compose flags and frozen lists are closed facts.",
   note="spec.h is the independent implementation; encode is proved over an abstract language object (table entry x -> one of 16 arbitrary strings); "
        "NFC itself is an injected dependency.")
-P("C04", level="proof", design_ref="7/C04", units=["U.api.keygen", "L.kdf.injective", "L.rt.index", "L.crypt.involution", "U.gf.unpack", "U.st.load"],
+P("C04", level="proof", design_ref="7/C04", units=["U.api.keygen", "L.kdf.injective", "L.rt.index", "L.crypt.involution", "U.api.crypt", "U.gf.unpack", "U.st.load", "U.api.create"],
   text="polyseed_keygen is proved against a contract that pins every KDF argument byte for byte (ghost-recording stub): "
        "one call, pw = 32-byte secret buffer, 32-byte salt per the published layout, 10000 iterations, caller's buffer and "
        "length passed through, key bytes not touched afterwards, no other dependency called, seed unchanged (frame); injectivity lemma; "
@@ -103,7 +104,7 @@ P("C10", level="proof", design_ref="7/C10", units=FT + ["U.api.create", "U.api.l
        "features_supported, make/get_features, is_encrypted proved; create, both decoders and load proved to refuse exactly the reserved bits "
        "(create before allocating; the others after the checksum, freeing the block); feature bits carried by the phrase/storage/crypt lemmas.",
   note="The reserved mask is symbolic in every entry-point proof (all eight enabled masks).")
-P("C11", level="proof", design_ref="7/C11", units=["U.bd.encode", "U.bd.decode", "U.api.get_birthday", "U.api.create", "L.pack.inv1", "L.st.inv1", "U.api.crypt", "L.rt.index"],
+P("C11", level="proof", design_ref="7/C11", units=["U.bd.encode", "U.bd.decode", "U.api.get_birthday", "U.api.create", "L.pack.inv1", "L.st.inv1", "U.api.crypt", "L.rt.index", "U.gf.pack", "U.gf.unpack", "U.st.store", "U.st.load", "U.api.load"] + DEC,
   text="birthday_encode proved against a division-free specification for all 2^64 clock values; birthday_decode and "
        "polyseed_get_birthday proved = epoch + k*step without overflow; polyseed_create proved to stamp the seed from exactly "
        "one call of the injected clock; packing, storage and crypt contracts carry all 10 bits unchanged.",
@@ -121,13 +122,13 @@ P("C13", level="proof", design_ref="7/C13", units=API_D + DEC + ["U.api.crypt", 
        "only mutable statics are the four known ones and each is written only by its owner (symbol-table + goto-program scan).",
   note="Induction over call histories is the standard, unmechanised glue; each step is machine-checked.",
   not_decided=["the induction over arbitrary finite histories itself"])
-P("C14", level="proof", design_ref="7/C14", units=["U.str.nfkd_lazy", "U.str.split", "U.lang.search", "U.st.load", "U.api.load", "U.api.crypt"] + CMPU + PHR + DEC,
+P("C14", level="proof", design_ref="7/C14", units=["U.str.nfkd_lazy", "B.str.nfkd_lazy", "U.str.split", "U.lang.search", "U.st.load", "U.api.load", "U.api.crypt"] + CMPU + PHR + DEC,
   text="Every unit runs with bounds, pointer, pointer-overflow, signed-overflow, shift and division checks and with the library's own assert()s "
        "enabled; all string loops (lazy NFKD, tokeniser, four comparers, linear search) are closed by inductive invariants with decreases "
        "clauses, so memory safety and termination hold for strings of any length; decoders/crypt/load return only documented statuses, do not "
        "write their input, and leave nothing allocated on failure.",
   note="Caller string objects are symbolic up to 1200 bytes (nfkd_lazy) / 576 bytes (comparer keys); bsearch trusted; dependency stubs assumed.")
-P("C15", level="proof", design_ref="7/C15", units=["U.api.create", "U.api.free", "U.api.load"] + DEC,
+P("C15", level="proof", design_ref="7/C15", units=["U.api.create", "U.api.free", "U.api.load", "U.st.load", "U.gf.unpack"] + DEC,
   text="Allocator ledger contracts: create, load and both decoders call the injected allocator at most once with sizeof(seed); every failure "
        "path returns the block through the injected free exactly once (after wiping) and leaves nothing live; NULL from the "
        "allocator gives the memory status with *seed_out untouched; polyseed_free(NULL) calls nothing; the free stub rejects "
@@ -151,9 +152,9 @@ P("C18", level="proof", design_ref="7/C18", units=["U.api.create", "U.dep.inject
        "injected clock exactly once and nothing else; polyseed_inject proved, from an arbitrary previous table, to copy every entry and to fall "
        "back to libc time/malloc/free exactly for NULL entries; goto-program scan: no direct call to any other external function.",
   note="The scan is of direct call targets before function-pointer removal; pointer calls must go through a polyseed_deps member.")
-P("C19", level="proof", design_ref="7/C19", both_chars=True, units=["U.str.nfkd_lazy"] + CMPU + CMPB, engines=["tables"],
-  text="Every char-sensitive unit (lazy NFKD, the four comparers: unbounded safety and bounded rule) is verified under -fsigned-char and "
-       "-funsigned-char against the same byte-value specification; all closed word-list facts (sortedness, search, acceptance rule) are "
+P("C19", level="proof", design_ref="7/C19", both_chars=True, units=["U.str.nfkd_lazy", "B.str.nfkd_lazy", "U.api.crypt", "U.str.split"] + DEC + PHR + CMPU + CMPB, engines=["tables"],
+  text="Every unit that handles plain char (lazy NFKD, tokeniser, the four comparers: unbounded safety and bounded rule, both decoders, crypt, the "
+       "phrase decoders) is verified under -fsigned-char and -funsigned-char against the same byte-value specification; all closed word-list facts (sortedness, search, acceptance rule) are "
        "evaluated with both settings and must agree.",
   note="All other functions do not operate on plain char values (byte arrays are uint8_t); goto-cc honours -funsigned-char (measured).")
 P("C20", level="other", design_ref="7/C20", units=API_D + DEC + ["U.api.crypt", "U.api.encode", "U.dep.inject", "U.ft.enable"], engines=["statics"],
